@@ -1,0 +1,26 @@
+//go:build verif
+
+package build
+
+// Hooks for the external verification harness. Only built with the "verif" tag.
+
+// VerifSwapContext replaces the package-level build context and returns the
+// previous one, so that the package-level build functions can be observed
+// in-process on a fresh context.
+func VerifSwapContext(c *Context) *Context {
+	old := ctx
+	ctx = c
+	return old
+}
+
+// VerifErrCount returns the number of errors accumulated so far.
+func (c *Context) VerifErrCount() int { return len(c.errs) }
+
+// VerifErrMessages returns the messages of the accumulated errors.
+func (c *Context) VerifErrMessages() []string {
+	var out []string
+	for _, e := range c.errs {
+		out = append(out, e.Err.Error())
+	}
+	return out
+}
